@@ -209,9 +209,12 @@ func r14_4(c *Ctx) {
 			if !((isIdx(add.X, 0) && isIdx(add.Y, 1)) || (isIdx(add.X, 1) && isIdx(add.Y, 0))) {
 				continue
 			}
-			if b, ok := ret.Results[2].(*ssa.BinOp); ok && b.Op == token.NEQ && isIdx(b.X, 1) {
-				if k, ok := constInt(b.Y); ok && k == 0 {
-					good2 = true
+			if b, ok := ret.Results[2].(*ssa.BinOp); ok && isIdx(b.X, 1) {
+				if k, ok := constInt(b.Y); ok {
+					// true exactly for length >= 1 (length is never negative)
+					if (b.Op == token.NEQ && k == 0) || (b.Op == token.GTR && k == 0) || (b.Op == token.GEQ && k == 1) {
+						good2 = true
+					}
 				}
 			}
 		}
